@@ -423,8 +423,11 @@ inline void initStripeState(
       stripeEnd = end;
     } else {
       Wide perStripe = totalRange / static_cast<Wide>(numWorkers);
-      Wide endWide = static_cast<Wide>(start) + static_cast<Wide>(i + 1) * perStripe;
-      stripeEnd = alignDownStripe(static_cast<IntegerT>(endWide), state.granularity);
+      // Align the stripe boundary relative to `start` (not to absolute multiples of the
+      // granularity) so every stripe length, hence every chunk, is a granularity multiple.
+      Wide relEnd =
+          alignDownStripe(static_cast<Wide>(static_cast<Wide>(i + 1) * perStripe), state.granularity);
+      stripeEnd = static_cast<IntegerT>(static_cast<Wide>(start) + relEnd);
       if (stripeEnd <= cursor) {
         stripeEnd = cursor;
       }
